@@ -20,9 +20,9 @@ MUTANTS = [
  ("C02-enum-via-fragment-not-collected", "graphql_client_codegen/src/query/selection.rs",
   "                used_types.fragments.insert(*fragment_id);\n\n                let fragment = query.query.get_fragment(*fragment_id);\n\n                for (_id, selection) in query.query.walk_selection_set(&fragment.selection_set) {\n                    selection.collect_used_types(used_types, query);\n                }",
   "                used_types.fragments.insert(*fragment_id);\n\n                let fragment = query.query.get_fragment(*fragment_id);\n\n                for (_id, selection) in query.query.walk_selection_set(&fragment.selection_set).take(3) {\n                    selection.collect_used_types(used_types, query);\n                }"),
- ("C03-required-list-becomes-optional", "graphql_client_codegen/src/codegen.rs",
-  "            (true, GraphqlTypeQualifier::List) => {\n                qualified = quote!(Vec<#qualified>);\n                non_null = false;\n            }",
-  "            (true, GraphqlTypeQualifier::List) => {\n                qualified = quote!(Vec<#qualified>);\n                non_null = qualifiers.len() > 3;\n            }"),
+ ("C03-deep-nonnull-becomes-optional", "graphql_client_codegen/src/codegen.rs",
+  "            (false, GraphqlTypeQualifier::Required) => {\n                non_null = true;\n            }",
+  "            (false, GraphqlTypeQualifier::Required) => {\n                non_null = qualifiers.len() < 4;\n            }"),
  ("C03-unknown-always", "graphql_client_codegen/src/codegen/selection.rs",
   "            if *options.fragments_other_variant() {",
   "            if *options.fragments_other_variant() || variants.len() > 2 {"),
@@ -60,26 +60,26 @@ MUTANTS = [
   "                    match s.as_str() {",
   "                    match s.trim() {"),
  ("C11-keyword-table-misplaced", "graphql_client_codegen/src/codegen/shared.rs",
-  "\"typeof\",\n    \"union\", \"unsafe\"",
-  "\"union\",\n    \"typeof\", \"unsafe\""),
+  "\"loop\", \"macro\", \"match\", \"mod\",",
+  "\"loop\", \"macro\", \"mod\",  \"match\","),
  ("C12-visited-starts-with-self", "graphql_client_codegen/src/schema.rs",
   "                // no need to visit type twice (prevents infinite recursion)\n                if visited_types.contains(&input.name.as_str()) {\n                    return false;\n                }",
   "                // no need to visit type twice (prevents infinite recursion)\n                if visited_types.contains(&input.name.as_str()) || visited_types.len() > 2 {\n                    return false;\n                }"),
  ("C13-json-qualifiers-reversed-deep", "graphql_client_codegen/src/schema/json_conversion.rs",
   "            (Some(_), None, Some(name)) => {\n                return super::StoredFieldType {",
   "            (Some(_), None, Some(name)) => {\n                if qualifiers.len() > 4 { qualifiers.swap(0, 1); }\n                return super::StoredFieldType {"),
- ("C14-reason-first-argument", "graphql_client_codegen/src/schema/graphql_parser_conversion.rs",
-  "                .find(|(name, _)| name.as_ref() == \"reason\")",
-  "                .find(|(name, _)| name.as_ref().starts_with('r'))"),
- ("C14-json-reason-means-deprecated", "graphql_client_codegen/src/schema/json_conversion.rs",
-  "            deprecation: if let Some(true) = field.is_deprecated {\n                Some(field.deprecation_reason.clone())\n            } else {\n                None\n            },\n        };\n\n        field_ids.push(schema.push_field(field));\n    }\n\n    let object",
-  "            deprecation: if field.is_deprecated == Some(true) || field.deprecation_reason.is_some() {\n                Some(field.deprecation_reason.clone())\n            } else {\n                None\n            },\n        };\n\n        field_ids.push(schema.push_field(field));\n    }\n\n    let object"),
+ ("C14-multiline-reason-dropped", "graphql_client_codegen/src/schema/graphql_parser_conversion.rs",
+  "                    graphql_parser::query::Value::String(s) => Some(s.clone()),",
+  "                    graphql_parser::query::Value::String(s) if !s.contains('\\n') => Some(s.clone()),"),
+ ("C14-deny-also-drops-typename-neighbours", "graphql_client_codegen/src/codegen/selection.rs",
+  "                (Some(_), DeprecationStrategy::Deny) => return None,",
+  "                (Some(_), DeprecationStrategy::Deny) => return None,\n                (None, DeprecationStrategy::Deny) if self.flatten && self.boxed => return None,"),
  ("C15-display-last-location", "graphql_client/src/lib.rs",
   "            .and_then(|locations| locations.iter().next())",
   "            .and_then(|locations| locations.iter().last())"),
- ("C16-option-by-outermost", "graphql_client_codegen/src/codegen/selection.rs",
-  "        let is_required = self\n            .field_type_qualifiers\n            .contains(&GraphqlTypeQualifier::Required);",
-  "        let is_required = self\n            .field_type_qualifiers\n            .last() == Some(&GraphqlTypeQualifier::Required) || self.field_type_qualifiers.first() == Some(&GraphqlTypeQualifier::Required);"),
+ ("C16-list-helper-only-for-nullable-outer", "graphql_client_codegen/src/codegen/selection.rs",
+  "        let is_list = self\n            .field_type_qualifiers\n            .contains(&GraphqlTypeQualifier::List);",
+  "        let is_list = self\n            .field_type_qualifiers\n            .first() == Some(&GraphqlTypeQualifier::List);"),
  ("C17-used-types-guard-removed-for-nested", "graphql_client_codegen/src/schema.rs",
   "                    if used_types.types.contains(&type_id) {\n                        continue;",
   "                    if used_types.types.contains(&type_id) && self.fields.len() < 3 {\n                        continue;"),
